@@ -24,10 +24,11 @@ type cfgCase struct {
 	Perm    []int    `json:"perm,omitempty"`     // registration order (indices)
 	Extra   string   `json:"extra,omitempty"`    // named special configurations
 	DupMask uint32   `json:"dup,omitempty"`      // bit i*N+j: the dependency is declared twice (two parameters / fields of the same identity)
+	DupOpt  uint32   `json:"dup_optional_first,omitempty"` // bit i*N+j: declared twice, the FIRST occurrence optional, the second required
 }
 
 func (c cfgCase) String() string {
-	return fmt.Sprintf("n=%d edges=%v life=%v forms=%v shape=%s missing=%b opt=%b dup=%b kind=%v perm=%v %s", c.N, adjOf(c.N, c.Mask, false), c.Life, c.Target, c.Shape, c.Missing, c.OptMask, c.DupMask, c.Kind, c.Perm, c.Extra)
+	return fmt.Sprintf("n=%d edges=%v life=%v forms=%v shape=%s missing=%b opt=%b dup=%b dup-optional-first=%b kind=%v perm=%v %s", c.N, adjOf(c.N, c.Mask, false), c.Life, c.Target, c.Shape, c.Missing, c.OptMask, c.DupMask, c.DupOpt, c.Kind, c.Perm, c.Extra)
 }
 
 var aliasNames = []string{"IA", "IB"}
@@ -92,6 +93,13 @@ func (c cfgCase) spec() kit.Spec {
 			r.Deps = append(r.Deps, d)
 			if c.DupMask&(1<<(i*c.N+j)) != 0 {
 				r.Deps = append(r.Deps, d)
+			}
+			if c.DupOpt&(1<<(i*c.N+j)) != 0 && group == "" {
+				// the same identity once as an optional field and once more as a required one
+				r.Deps[len(r.Deps)-1].Opt = true
+				d.Opt = false
+				r.Deps = append(r.Deps, d)
+				allPlain = false
 			}
 		}
 		r.In = c.Shape == "in" || !allPlain
